@@ -236,6 +236,8 @@ def instances(tier):
                         by_solver=s <= 1, budget=bs))
         out.append(dict(id="%s-step-diag2" % n, cls=n, kind="step", system="diag", shape=[2], steps=1, by_solver=s <= 1, norm_by_solver=s <= 1,
                         budget=bs))
+        if thorough or n in ("BackwardEuler", "GaussLegendre4", "RadauIIA5", "LobattoIIIC4"):
+            out.append(dict(id="%s-step-matrix22" % n, cls=n, kind="step", system="matrix", shape=[2, 2], steps=1, by_solver=False, budget=bs))
         if np.asarray(cls.tableau_final).shape[0] == 2:
             for setting in (True, False):
                 out.append(dict(id="%s-step-scalar-adaptivity-set-%s" % (n, setting), cls=n, kind="step", system="scalar", shape=[1], steps=1,
@@ -459,7 +461,7 @@ class LinearRhs:
 
     def __call__(self, t, y, **kw):
         self.calls += 1
-        if self.system == "scalar":
+        if self.system in ("scalar", "matrix"):
             return self.lam[0] * y
         a, b = self.lam
         if self.system == "block":
@@ -467,6 +469,9 @@ class LinearRhs:
         return self.c.array([a * y[0], b * y[1]])
 
     def jac(self, t, y, **kw):
+        if self.system == "matrix":
+            m = int(np.prod(np.shape(y)))
+            return self.c.array([[self.lam[0] if i == j else 0 * self.lam[0] for j in range(m)] for i in range(m)]).reshape(tuple(np.shape(y)) * 2)
         if self.system == "scalar":
             return self.c.array([[self.lam[0]]])
         a, b = self.lam
@@ -514,10 +519,14 @@ def _scn_step(c, inst, d):
     shape = tuple(inst["shape"])
     system = inst.get("system", "scalar")
     s = d["s"]
-    n = shape[0]
+    n = int(np.prod(shape))
     t = c.real("t")
     h = c.real("h")
-    if system == "scalar":
+    if system == "matrix":
+        # a matrix-shaped state (2, 2) with Y' = lam*Y elementwise: every entry is the scalar test equation
+        lam = (c.real("lam"),)
+        zs = [(h * lam[0], 0 * h)] * 4
+    elif system == "scalar":
         lam = (c.real("lam"),)
         zs = [(h * lam[0], 0 * h)]                    # one complex z per decoupled complex component
     elif system == "block":
@@ -526,7 +535,7 @@ def _scn_step(c, inst, d):
     else:                                             # "diag": two uncoupled real eigenvalues
         lam = (c.real("l0"), c.real("l1"))
         zs = [(h * lam[0], 0 * h), (h * lam[1], 0 * h)]
-    y = c.array([c.real("y%d" % i) for i in range(n)])
+    y = c.array([c.real("y%d" % i) for i in range(n)]).reshape(shape)
     st, integ = run(_mk, c, cls, shape)
     if st != "ok":
         c.check("c11.step.constructs", False, info=repr(integ))
@@ -559,7 +568,8 @@ def _scn_step(c, inst, d):
         if system == "block":
             comps = [((yy[0], yy[1]), (y1[0], y1[1]), [(res[i], res[s + i]) for i in range(s)])]
         else:
-            comps = [((yy[j], 0 * h), (y1[j], 0 * h), [(res[j * s + i], 0 * h) for i in range(s)]) for j in range(n)]
+            yyf, y1f = flat(c, yy), flat(c, y1)
+            comps = [((yyf[j], 0 * h), (y1f[j], 0 * h), [(res[j * s + i], 0 * h) for i in range(s)]) for j in range(n)]
         identities, equalities = [], []
         if c.symbolic:
             scale = 1
